@@ -971,6 +971,10 @@ static void do_setup(void) {
     if (!(loop_mode && prog_loopable)) m_ctx_dispatch();
 }
 
+/* payloads are the program's: it releases those the library did not (or must not) release */
+static void free_payloads(void) {
+    for (int p = 1; p <= NP; p++) if (PAY[p].ptr && !(PAY[p].autofree && vp_watch_freed[PAY[p].watch])) { vp_free(PAY[p].ptr); PAY[p].ptr = NULL; }
+}
 static int threaded;
 static void on_alarm(int sig) { failed = 0; fail("core-hang", "program did not finish within its time limit (blocked or looping)"); }
 
@@ -1018,17 +1022,23 @@ static int gw_run(const int *prog, int n) {
     for (int k2 = 1; k2 <= NKEY; k2++) { if (ufd_r[k2] >= 0) __real_close(ufd_r[k2]); if (ufd_w[k2] >= 0) __real_close(ufd_w[k2]); }
     if (failed) return 1;
     /* programs end in a clean state: context released, no references held: nothing may be left */
-    for (int p = 1; p <= NP; p++) if (PAY[p].ptr && !(PAY[p].autofree && vp_watch_freed[PAY[p].watch])) { vp_free(PAY[p].ptr); PAY[p].ptr = NULL; }
+    if (is_clean(cur_state)) free_payloads();
     if (is_clean(cur_state)) {
         long now_out = vp_outstanding + __atomic_load_n(&vp_foreign_outstanding, __ATOMIC_SEQ_CST);
         if (now_out != base) { gw_mismatch(prog, n, n - 1, "core-leak", "allocator ledger: %ld blocks outstanding in a clean state (context released, all references dropped)", now_out - base); vp_outstanding -= now_out - base; if (gw_forked) gw_resume_exit(); return 1; }
         if (lib_fds_open()) { gw_mismatch(prog, n, n - 1, "core-fd-leak", "%d descriptors opened by the library are still open in a clean state", lib_fds_open()); if (gw_forked) gw_resume_exit(); return 1; }
     } else {
-        /* not clean (only when no completion exists): release what we can */
+        /* not clean (only when no completion exists): release what we can; callbacks made meanwhile are not part of the program */
+        failed = 1;
+        if (task_mode) task_release_all();
+        if (m_ctx_name() && m_ctx() && m_ctx()->state == M_CTX_LOOPING) { m_ctx_quit(0); batch_armed = 0; nbatch = 0; m_ctx_dispatch(); }     /* a looping context refuses to go */
         if (m_ctx_name()) { for (int i = 0; i < nmods; i++) if (H[i] && m_mod_state(H[i]) != M_MOD_ZOMBIE) m_mod_deregister(&H[i]); if (m_ctx_name()) m_ctx_deregister(); }
         for (int i = 0; i < nmods; i++) for (; H[i] && hcnt[i] > 0; hcnt[i]--) m_mem_unref(H[i]);
         for (int q = 0; q < nheld; q++) m_mem_unref(HELD[q]);
+        if (task_mode) { struct timespec ts = {0, 2000000}; nanosleep(&ts, NULL); }        /* (let released task threads finish) */
+        free_payloads();
         vp_outstanding = base - __atomic_load_n(&vp_foreign_outstanding, __ATOMIC_SEQ_CST);
+        failed = 0;
     }
 #if defined(__has_feature)
 #if __has_feature(address_sanitizer)
